@@ -25,8 +25,10 @@ class Impl:
         del m.sessions[:]
         del m.quic_sessions[:]
 
-    def run(self, capture_bytes, keylog_text, args=(), reset=True, legacy=False):
-        """-> (status, output bytes | None).  status: 'ok' | 'exit:<code>' | 'crash:<ExceptionName>'"""
+    def run(self, capture_bytes, keylog_text, args=(), reset=False, legacy=False):
+        """-> (status, output bytes | None).  status: 'ok' | 'exit:<code>' | 'crash:<ExceptionName>'.
+        The module-level state of tlexport.main is NOT reset between runs (run() is expected to do that itself):
+        every check therefore also exercises "independent of anything processed by an earlier run"."""
         if reset:
             self.reset_globals()
         inp = os.path.join(self.tmp, "in.pcapng")
